@@ -1,2 +1,356 @@
-/- placeholder: syndromes theorem is added in the deepening pass -/
+/-
+Syndromes: the schoolbook remainder modulo g(x) = ∏_{i<ec}(x - alpha^i) makes data ++ remainder
+vanish at alpha^0 … alpha^(ec-1) (so every block is a Reed–Solomon codeword), for EVERY data block.
+Field laws on bytes are derived from the shift-and-xor definition (distributivity) and from the
+representation of nonzero bytes as powers of alpha (commutativity, associativity).
+-/
 import FastQr.Proofs.Division
+
+namespace FastQr.Proofs.Syndromes
+open FastQr Spec.GF Proofs.Gf Proofs.Division
+
+/-! ### field laws -/
+
+theorem xor_cancel4 (a x y : Nat) : (x ^^^ a) ^^^ (y ^^^ a) = x ^^^ y := by
+  have : (x ^^^ a) ^^^ (y ^^^ a) = (x ^^^ y) ^^^ (a ^^^ a) := by ac_rfl
+  simp [this]
+
+theorem mulAux_xor (k a b c acc1 acc2 : Nat) :
+    mulAux k a (b ^^^ c) (acc1 ^^^ acc2) = mulAux k a b acc1 ^^^ mulAux k a c acc2 := by
+  induction k generalizing a b c acc1 acc2 with
+  | zero => simp [mulAux]
+  | succ k ih =>
+    simp only [mulAux, Nat.xor_div_two]
+    by_cases hb : b % 2 = 1 <;> by_cases hc : c % 2 = 1 <;>
+      simp only [Nat.xor_mod_two_eq_one, hb, hc, if_true, if_false, iff_self, not_true,
+        not_false_eq_true, iff_false, false_iff] <;> rw [← ih] <;> congr 1
+    · exact (xor_cancel4 a acc1 acc2).symm
+    · ac_rfl
+    · ac_rfl
+
+/-- right distributivity, for all naturals -/
+theorem mul_xor_right (a b c : Nat) : mul a (b ^^^ c) = mul a b ^^^ mul a c := by
+  simpa [mul] using mulAux_xor 8 a b c 0 0
+
+/-- left distributivity on bytes -/
+theorem mul_xor_left {a b c : Nat} (ha : a < 256) (hb : b < 256) (hc : c < 256) :
+    mul (a ^^^ b) c = mul a c ^^^ mul b c := by
+  rw [mul_comm_bytes (xor_lt ha hb) hc, mul_xor_right, mul_comm_bytes hc ha, mul_comm_bytes hc hb]
+
+theorem mul_assoc_bytes {a b c : Nat} (ha : a < 256) (hb : b < 256) (hc : c < 256) :
+    mul (mul a b) c = mul a (mul b c) := by
+  by_cases ha0 : a = 0
+  · subst ha0; simp [mul_zero_left]
+  by_cases hb0 : b = 0
+  · subst hb0; simp [mul_zero_left, mul_zero_right]
+  by_cases hc0 : c = 0
+  · subst hc0; simp [mul_zero_right]
+  rw [byte_is_power (by omega) ha, byte_is_power (by omega) hb, byte_is_power (by omega) hc]
+  simp only [alphaPow_add]
+  rw [Nat.add_assoc]
+
+/-! ### Horner evaluation -/
+
+/-- one Horner step -/
+def hstep (x : Nat) (acc c : Nat) : Nat := mul acc x ^^^ c
+
+theorem eval_def (p : List Nat) (x : Nat) : eval p x = p.foldl (hstep x) 0 := rfl
+
+def AllBytes (l : List Nat) : Prop := ∀ c ∈ l, c < 256
+
+theorem hfold_lt (x : Nat) (l : List Nat) (a : Nat) (ha : a < 256) (hl : AllBytes l) :
+    l.foldl (hstep x) a < 256 := by
+  induction l generalizing a with
+  | nil => exact ha
+  | cons c cs ih =>
+    rw [List.foldl_cons]
+    exact ih _ (xor_lt (mul_lt _ _ ha) (hl c (by simp))) (fun d hd => hl d (by simp [hd]))
+
+/-- Horner is linear in (accumulator, coefficient list) -/
+theorem hfold_xor (x : Nat) (hx : x < 256) (l m : List Nat) (hlen : l.length = m.length) (a b : Nat)
+    (ha : a < 256) (hb : b < 256) (hl : AllBytes l) (hm : AllBytes m) :
+    (List.zipWith (· ^^^ ·) l m).foldl (hstep x) (a ^^^ b) = l.foldl (hstep x) a ^^^ m.foldl (hstep x) b := by
+  induction l generalizing m a b with
+  | nil =>
+    cases m with
+    | nil => rfl
+    | cons _ _ => simp at hlen
+  | cons c cs ih =>
+    cases m with
+    | nil => simp at hlen
+    | cons d ds =>
+      simp only [List.zipWith_cons_cons, List.foldl_cons]
+      have hc := hl c (by simp)
+      have hd := hm d (by simp)
+      have e : hstep x (a ^^^ b) (c ^^^ d) = hstep x a c ^^^ hstep x b d := by
+        simp only [hstep, mul_xor_left ha hb hx]; ac_rfl
+      rw [e]
+      exact ih ds (by simpa using hlen) _ _ (xor_lt (mul_lt _ _ ha) hc) (xor_lt (mul_lt _ _ hb) hd)
+        (fun y hy => hl y (by simp [hy])) (fun y hy => hm y (by simp [hy]))
+
+/-- x^k -/
+def xpow (x : Nat) : Nat → Nat
+  | 0 => 1
+  | k + 1 => mul (xpow x k) x
+
+theorem xpow_lt (x k : Nat) : xpow x k < 256 := by
+  cases k with
+  | zero => show (1 : Nat) < 256; omega
+  | succ k => exact mul_lt _ _ (xpow_lt x k)
+
+/-- Horner over zeros multiplies by a power -/
+theorem hfold_zeros (x : Nat) (hx : x < 256) (k a : Nat) (ha : a < 256) :
+    (List.replicate k 0).foldl (hstep x) a = mul a (xpow x k) := by
+  induction k generalizing a with
+  | zero =>
+    simp only [List.replicate_zero, List.foldl_nil, xpow]
+    rw [mul_comm_bytes ha (by decide), mul_one_left ha]
+  | succ k ih =>
+    rw [List.replicate_succ, List.foldl_cons, ih _ (by simpa [hstep] using mul_lt _ _ ha)]
+    simp only [hstep, Nat.xor_zero, xpow]
+    rw [mul_assoc_bytes ha hx (xpow_lt x k), mul_comm_bytes hx (xpow_lt x k)]
+
+/-- scalar multiples: Horner of `f·p` from `f·a` is `f · (Horner of p from a)` -/
+theorem hfold_scale (x : Nat) (hx : x < 256) (f : Nat) (hf : f < 256) (p : List Nat) (hp : AllBytes p)
+    (a : Nat) (ha : a < 256) :
+    (p.map (mul f)).foldl (hstep x) (mul f a) = mul f (p.foldl (hstep x) a) := by
+  induction p generalizing a with
+  | nil => rfl
+  | cons c cs ih =>
+    simp only [List.map_cons, List.foldl_cons]
+    have hc := hp c (by simp)
+    have e : hstep x (mul f a) (mul f c) = mul f (hstep x a c) := by
+      simp only [hstep]
+      rw [mul_xor_right, mul_assoc_bytes hf ha hx]
+    rw [e]
+    exact ih (fun y hy => hp y (by simp [hy])) _ (xor_lt (mul_lt _ _ ha) hc)
+
+theorem hfold_append (x : Nat) (l m : List Nat) (a : Nat) :
+    (l ++ m).foldl (hstep x) a = m.foldl (hstep x) (l.foldl (hstep x) a) := List.foldl_append
+
+/-! ### one elimination step preserves the value at a root of g -/
+
+/-- a monic polynomial `1 :: tail` vanishes at `x` iff `x^deg = tail(x)` -/
+theorem root_iff (x : Nat) (hx : x < 256) (tail : List Nat) (ht : AllBytes tail)
+    (hroot : eval (1 :: tail) x = 0) : tail.foldl (hstep x) 0 = xpow x tail.length := by
+  have h1 : eval (1 :: tail) x = tail.foldl (hstep x) 1 := by
+    simp [eval_def, hstep, mul_zero_left]
+  -- linearity: fold from 1 = fold from 1 over zeros  xor  fold from 0 over tail
+  have hz : List.zipWith (· ^^^ ·) (List.replicate tail.length 0) tail = tail := by
+    apply List.ext_getElem <;> simp
+  have hlin := hfold_xor x hx (List.replicate tail.length 0) tail (by simp) 1 0 (by decide) (by decide)
+    (by intro c hc; simp at hc; omega) ht
+  rw [hz] at hlin
+  simp only [Nat.xor_zero] at hlin
+  rw [hfold_zeros x hx _ 1 (by decide), mul_one_left (xpow_lt x _)] at hlin
+  rw [h1, hlin] at hroot
+  -- a ^^^ b = 0 → a = b
+  have h2 : (xpow x tail.length ^^^ tail.foldl (hstep x) 0) ^^^ tail.foldl (hstep x) 0 =
+      0 ^^^ tail.foldl (hstep x) 0 := by rw [hroot]
+  rw [Nat.xor_assoc, Nat.xor_self, Nat.xor_zero, Nat.zero_xor] at h2
+  exact h2.symm
+
+theorem remStep_eval (x : Nat) (hx : x < 256) (tail : List Nat) (ht : AllBytes tail)
+    (hroot : eval (1 :: tail) x = 0) (f : Nat) (hf : f < 256) (rest : List Nat) (hr : AllBytes rest)
+    (hlen : tail.length ≤ rest.length) :
+    eval (remStep (1 :: tail) (f :: rest)) x = eval (f :: rest) x := by
+  have hE : eval (f :: rest) x = rest.foldl (hstep x) f := by
+    simp [eval_def, hstep, mul_zero_left]
+  simp only [remStep, List.drop_succ_cons, List.drop_zero, List.length_cons, Nat.add_sub_cancel]
+  -- RHS by linearity
+  have hz : List.zipWith (· ^^^ ·) rest (List.replicate rest.length 0) = rest := by
+    apply List.ext_getElem <;> simp
+  have hR := hfold_xor x hx rest (List.replicate rest.length 0) (by simp) 0 f (by decide) hf hr
+    (by intro c hc; simp at hc; omega)
+  rw [hz, Nat.zero_xor] at hR
+  -- LHS by linearity
+  have hmb : AllBytes (tail.map (mul f) ++ List.replicate (rest.length - tail.length) 0) := by
+    intro c hc
+    simp only [List.mem_append, List.mem_map, List.mem_replicate] at hc
+    rcases hc with ⟨d, _, rfl⟩ | ⟨_, rfl⟩
+    · exact mul_lt _ _ hf
+    · decide
+  have hL := hfold_xor x hx rest (tail.map (mul f) ++ List.replicate (rest.length - tail.length) 0)
+    (by simp; omega) 0 0 (by decide) (by decide) hr hmb
+  simp only [Nat.xor_zero] at hL
+  rw [eval_def, hL, hE, hR]
+  congr 1
+  -- f·tail(x)·x^(m-ec) = f·x^m
+  rw [hfold_append, hfold_zeros x hx _ _ (hfold_lt x _ 0 (by decide) (fun c hc => by
+    simp only [List.mem_map] at hc; obtain ⟨d, _, rfl⟩ := hc; exact mul_lt _ _ hf))]
+  have hs := hfold_scale x hx f hf tail ht 0 (by decide)
+  rw [mul_zero_right] at hs
+  rw [hs, root_iff x hx tail ht hroot, hfold_zeros x hx _ f hf, mul_assoc_bytes hf (xpow_lt x _) (xpow_lt x _)]
+  congr 1
+  -- x^a * x^b = x^(a+b)
+  have hpow : ∀ a b, mul (xpow x a) (xpow x b) = xpow x (a + b) := by
+    intro a b
+    induction b with
+    | zero => simp only [xpow, Nat.add_zero]; rw [mul_comm_bytes (xpow_lt x a) (by decide), mul_one_left (xpow_lt x a)]
+    | succ b ih =>
+      show mul (xpow x a) (mul (xpow x b) x) = mul (xpow x (a + b)) x
+      rw [← mul_assoc_bytes (xpow_lt x a) (xpow_lt x b) hx, ih]
+  rw [hpow]; congr 1; omega
+
+/-! ### the whole division preserves the value at a root; syndromes of data ++ remainder -/
+
+theorem remStep_bytes (g : List Nat) (hg : AllBytes g) (w : List Nat) (hw : AllBytes w) :
+    AllBytes (remStep g w) := by
+  cases w with
+  | nil => intro c hc; simp [remStep] at hc
+  | cons f rest =>
+    intro c hc
+    simp only [remStep] at hc
+    obtain ⟨i, hi, rfl⟩ := List.getElem_of_mem hc
+    rw [List.getElem_zipWith]
+    have hf := hw f (by simp)
+    apply xor_lt
+    · exact hw _ (by simp [List.getElem_mem])
+    · have hi2 : i < ((g.drop 1).map (mul f) ++ List.replicate (rest.length - (g.length - 1)) 0).length := by
+        have := hi; rw [List.length_zipWith] at this; omega
+      have hmem := List.getElem_mem hi2
+      simp only [List.mem_append, List.mem_map, List.mem_replicate] at hmem
+      rcases hmem with ⟨d, _, hd⟩ | ⟨_, hd⟩
+      · rw [← hd]; exact mul_lt _ _ hf
+      · rw [hd]; decide
+
+theorem remStep_length (g : List Nat) (f : Nat) (rest : List Nat) (h : g.length - 1 ≤ rest.length) :
+    (remStep g (f :: rest)).length = rest.length := by
+  simp only [remStep, List.length_zipWith, List.length_append, List.length_map, List.length_drop,
+    List.length_replicate]
+  omega
+
+theorem iter_eval (x : Nat) (hx : x < 256) (tail : List Nat) (ht : AllBytes tail)
+    (hroot : eval (1 :: tail) x = 0) (n : Nat) (w : List Nat) (hw : AllBytes w)
+    (hlen : w.length = n + tail.length) :
+    eval (iter (remStep (1 :: tail)) n w) x = eval w x ∧
+    (iter (remStep (1 :: tail)) n w).length = tail.length ∧ AllBytes (iter (remStep (1 :: tail)) n w) := by
+  induction n generalizing w with
+  | zero => exact ⟨rfl, by simpa [iter] using hlen, hw⟩
+  | succ n ih =>
+    cases w with
+    | nil => simp at hlen; omega
+    | cons f rest =>
+      have hrl : tail.length ≤ rest.length := by simp at hlen; omega
+      have hg : AllBytes (1 :: tail) := by
+        intro c hc; rcases List.mem_cons.mp hc with rfl | h
+        · decide
+        · exact ht c h
+      have hstep := remStep_eval x hx tail ht hroot f (hw f (by simp)) rest
+        (fun c hc => hw c (by simp [hc])) hrl
+      have hl' : (remStep (1 :: tail) (f :: rest)).length = n + tail.length := by
+        rw [remStep_length _ _ _ (by simpa using hrl)]; simp at hlen; omega
+      have := ih _ (remStep_bytes _ hg _ hw) hl'
+      simp only [iter]
+      exact ⟨by rw [this.1, hstep], this.2.1, this.2.2⟩
+
+/-- for a monic `g = 1 :: tail` and a root `x` of `g`: data ++ remainder vanishes at `x` -/
+theorem eval_data_rem (x : Nat) (hx : x < 256) (tail : List Nat) (ht : AllBytes tail)
+    (hroot : eval (1 :: tail) x = 0) (data : List Nat) (hd : AllBytes data) :
+    eval (data ++ remainder data (1 :: tail)) x = 0 := by
+  have hw : AllBytes (data ++ List.replicate tail.length 0) := by
+    intro c hc
+    simp only [List.mem_append, List.mem_replicate] at hc
+    rcases hc with h | ⟨_, rfl⟩
+    · exact hd c h
+    · decide
+  have hrem : remainder data (1 :: tail) = iter (remStep (1 :: tail)) data.length (data ++ List.replicate tail.length 0) := by
+    simp only [remainder, iterate_foldl, List.length_range, List.length_cons, Nat.add_sub_cancel]
+  obtain ⟨hev, hlen, hb⟩ := iter_eval x hx tail ht hroot data.length _ hw (by simp)
+  rw [hrem]
+  generalize iter (remStep (1 :: tail)) data.length (data ++ List.replicate tail.length 0) = rem at hev hlen hb
+  -- eval (data ++ rem) = eval (data ++ zeros) xor eval rem
+  have hA : data.foldl (hstep x) 0 < 256 := hfold_lt x data 0 (by decide) hd
+  have hz : List.zipWith (· ^^^ ·) (List.replicate rem.length 0) rem = rem := by
+    apply List.ext_getElem <;> simp
+  have hlin := hfold_xor x hx (List.replicate rem.length 0) rem (by simp) (data.foldl (hstep x) 0) 0 hA (by decide)
+    (by intro c hc; simp at hc; omega) hb
+  rw [hz, Nat.xor_zero] at hlin
+  have e1 : eval (data ++ rem) x = rem.foldl (hstep x) (data.foldl (hstep x) 0) := by
+    rw [eval_def, hfold_append]
+  have e2 : eval (data ++ List.replicate tail.length 0) x =
+      (List.replicate rem.length 0).foldl (hstep x) (data.foldl (hstep x) 0) := by
+    rw [eval_def, hfold_append, hlen]
+  rw [e1, hlin, ← e2, ← hev, eval_def, Nat.xor_self]
+
+/-! ### the generator polynomial -/
+
+theorem eval_cons_zero (q : List Nat) (x : Nat) : eval (0 :: q) x = eval q x := by
+  simp [eval_def, hstep, mul_zero_left]
+
+theorem mulLin_props (p : List Nat) (hp : AllBytes p) (a : Nat) (ha : a < 256) (x : Nat) (hx : x < 256) :
+    AllBytes (mulLin p a) ∧ (mulLin p a).length = p.length + 1 ∧
+    eval (mulLin p a) x = mul (eval p x) (x ^^^ a) := by
+  have hl1 : AllBytes (p ++ [0]) := by
+    intro c hc; simp only [List.mem_append, List.mem_singleton] at hc
+    rcases hc with h | rfl
+    · exact hp c h
+    · decide
+  have hl2 : AllBytes (0 :: p.map (mul a)) := by
+    intro c hc; simp only [List.mem_cons, List.mem_map] at hc
+    rcases hc with rfl | ⟨d, _, rfl⟩
+    · decide
+    · exact mul_lt _ _ ha
+  refine ⟨?_, by simp [mulLin], ?_⟩
+  · intro c hc
+    simp only [mulLin] at hc
+    obtain ⟨i, hi, rfl⟩ := List.getElem_of_mem hc
+    rw [List.getElem_zipWith]
+    exact xor_lt (hl1 _ (List.getElem_mem _)) (hl2 _ (List.getElem_mem _))
+  · have hlin := hfold_xor x hx (p ++ [0]) (0 :: p.map (mul a)) (by simp) 0 0 (by decide) (by decide) hl1 hl2
+    simp only [Nat.xor_zero] at hlin
+    have hE : eval p x < 256 := hfold_lt x p 0 (by decide) hp
+    rw [eval_def]
+    simp only [mulLin]
+    rw [hlin, ← eval_def, ← eval_def, eval_cons_zero, eval_def (p ++ [0]), hfold_append]
+    simp only [List.foldl_cons, List.foldl_nil, hstep, Nat.xor_zero]
+    have hs := hfold_scale x hx a ha p hp 0 (by decide)
+    rw [mul_zero_right] at hs
+    rw [eval_def, hs, ← eval_def, mul_xor_right, mul_comm_bytes ha hE]
+
+theorem genPoly_succ (n : Nat) : genPoly (n + 1) = mulLin (genPoly n) (alphaPow n) := by
+  simp [genPoly, List.range_succ, List.foldl_append]
+
+theorem genPoly_props (ec : Nat) :
+    AllBytes (genPoly ec) ∧ (genPoly ec).length = ec + 1 ∧ (genPoly ec).head? = some 1 ∧
+    ∀ i, i < ec → eval (genPoly ec) (alphaPow i) = 0 := by
+  induction ec with
+  | zero =>
+    refine ⟨?_, rfl, rfl, fun i hi => by omega⟩
+    intro c hc; simp [genPoly] at hc; omega
+  | succ n ih =>
+    obtain ⟨hb, hl, hh, hr⟩ := ih
+    rw [genPoly_succ]
+    refine ⟨(mulLin_props _ hb _ (alphaPow_lt n) 0 (by decide)).1,
+      by rw [(mulLin_props _ hb _ (alphaPow_lt n) 0 (by decide)).2.1, hl], ?_, ?_⟩
+    · -- monic
+      cases hg : genPoly n with
+      | nil => rw [hg] at hh; simp at hh
+      | cons c cs =>
+        rw [hg] at hh; simp only [List.head?_cons, Option.some.injEq] at hh; subst hh
+        simp [mulLin]
+    · intro i hi
+      rw [(mulLin_props _ hb _ (alphaPow_lt n) _ (alphaPow_lt i)).2.2]
+      by_cases hin : i < n
+      · rw [hr i hin, mul_zero_left]
+      · have : i = n := by omega
+        subst this
+        rw [Nat.xor_self, mul_zero_right]
+
+/-- **syndromes**: for every data block, data ++ (remainder modulo ∏_{i<ec}(x - alpha^i)) vanishes at
+alpha^0 … alpha^(ec-1) -/
+theorem syndromes_zero (ec : Nat) (data : List Nat) (hd : ∀ c ∈ data, c < 256) :
+    ∀ s ∈ syndromes (data ++ remainder data (genPoly ec)) ec, s = 0 := by
+  obtain ⟨hb, hl, hh, hr⟩ := genPoly_props ec
+  cases hg : genPoly ec with
+  | nil => rw [hg] at hl; simp at hl
+  | cons c tail =>
+    rw [hg] at hh hb hr
+    simp only [List.head?_cons, Option.some.injEq] at hh
+    subst hh
+    intro s hs
+    simp only [syndromes, List.mem_map, List.mem_range] at hs
+    obtain ⟨i, hi, rfl⟩ := hs
+    exact eval_data_rem _ (alphaPow_lt i) tail (fun d hdm => hb d (by simp [hdm])) (hr i hi) data hd
+
+end FastQr.Proofs.Syndromes
